@@ -96,6 +96,12 @@ static const std::vector<Kind>& kinds() {
         // op: 0 nothing; 1-4 set attribute 1 to V[op-1]; 5-8 set attribute 2 to V[op-5]; 9 remove attribute 1;
         // 10 remove attribute 2;  V = {"", "ab", "abcdefg", "xy"}.  The result line echoes the history; the
         // judge applies its own last-write-wins model to it (not the dump).
+        // boundary values of the 8-byte real format: exact powers of 16 in MAG / ANGLE (degrees) / UNITS
+        {"real8", {{"element", 2, "label; reference"},
+                   {"mag", 8, "1; 16; 256; 4096; 1/16; 1/256; 65536; 1/4096"},
+                   {"deg", 7, "rotation whose value in degrees, r*(180/pi), is exactly 0; 1; 16; 256; 1/16; -1; -256 (neighbouring doubles searched)"}}},
+        {"units16", {{"pair", 7, "(unit,precision) = (1,1); (1e-6,1e-6); (1,1/16); (1/16,1/256); (16,1); (1/256,1/65536); (1e-3,1e-3/16)"},
+                     {"element", 3, "polygon; label with magnification 16; reference array 2x3"}}},
         {"prophist", {{"element", 4, "polygon; simple path; label; reference"},
                       {"op1", 11, "see above"}, {"op2", 11, "see above"}, {"op3", 11, "see above"}, {"op4", 11, "see above"}}},
     };
@@ -282,6 +288,56 @@ static bool build_family(Library& lib, int libcfg, const std::string& kind, cons
             r->origin = p[6] ? Vec2{4 + 0.3 * DB, -3 + 0.7 * DB} : Vec2{4, -3};
         }
         top->reference_array.append(r);
+    } else if (kind == "real8" || kind == "units16") {
+        static const double mags[] = {1, 16, 256, 4096, 1.0 / 16, 1.0 / 256, 65536, 1.0 / 4096};
+        static const double degs[] = {0, 1, 16, 256, 1.0 / 16, -1, -256};
+        int element = kind == "real8" ? p[0] + 1 : p[1];  // 0 polygon, 1 label, 2 reference
+        double mag = kind == "real8" ? mags[p[1]] : 16, rot = 0;
+        if (kind == "real8") {
+            // a double r whose degree value r*(180/pi), as the writer computes it, is exactly degs[k]
+            double want = degs[p[2]], r0 = want * (M_PI / 180.0);
+            rot = r0;
+            double lo = r0, hi = r0;
+            for (int i = 0; i < 16 && rot * (180.0 / M_PI) != want; i++) {
+                lo = nextafter(lo, -1e300);
+                hi = nextafter(hi, 1e300);
+                if (lo * (180.0 / M_PI) == want) rot = lo;
+                else if (hi * (180.0 / M_PI) == want) rot = hi;
+            }
+        } else {
+            static const double up[7][2] = {{1, 1}, {1e-6, 1e-6}, {1, 1.0 / 16}, {1.0 / 16, 1.0 / 256}, {16, 1}, {1.0 / 256, 1.0 / 65536}, {1e-3, 1e-3 / 16}};
+            lib.unit = up[p[0]][0];
+            lib.precision = up[p[0]][1];
+        }
+        if (element == 0) {
+            Polygon* g = (Polygon*)allocate_clear(sizeof(Polygon));
+            g->tag = make_tag(1, 2);
+            g->point_array.append(Vec2{0, 0});
+            g->point_array.append(Vec2{3, 0});
+            g->point_array.append(Vec2{0, 4});
+            top->polygon_array.append(g);
+        } else if (element == 1) {
+            Label* l = (Label*)allocate_clear(sizeof(Label));
+            l->magnification = mag;
+            l->rotation = rot;
+            l->text = copy_string("R8", NULL);
+            l->origin = Vec2{1, 2};
+            top->label_array.append(l);
+        } else {
+            Reference* r = (Reference*)allocate_clear(sizeof(Reference));
+            r->type = ReferenceType::Cell;
+            r->cell = kid;
+            r->magnification = kind == "real8" ? mag : 1;
+            r->rotation = rot;
+            r->origin = Vec2{2, 3};
+            if (kind == "units16") {
+                r->repetition.type = RepetitionType::Rectangular;
+                r->repetition.columns = 2;
+                r->repetition.rows = 3;
+                r->repetition.spacing = Vec2{5, 7};
+            }
+            top->reference_array.append(r);
+        }
     } else if (kind == "prophist") {
         Property** props = NULL;
         if (p[0] == 0) {
